@@ -102,3 +102,19 @@ def canon(node: ast.AST, fn: ast.AST | set[str] | None = None, mapping: dict[str
 
 def nospace(text: str) -> str:
     return text.replace(" ", "").replace("\n", "")
+
+
+def normal_test(test: ast.AST, outcome: bool) -> tuple[ast.AST, bool]:
+    """A branch condition and its outcome in positive normal form: leading ``not`` is stripped and
+    ``!=`` / ``not in`` / ``is not`` become ``==`` / ``in`` / ``is`` with the outcome flipped, so that
+    ``if not c: B else: A`` and ``if c: A else: B`` give the same (test, outcome) pairs on every path."""
+    while isinstance(test, ast.UnaryOp) and isinstance(test.op, ast.Not):
+        test, outcome = test.operand, not outcome
+    if isinstance(test, ast.Compare) and len(test.ops) == 1:
+        flip = {ast.NotEq: ast.Eq, ast.NotIn: ast.In, ast.IsNot: ast.Is}
+        for neg, pos in flip.items():
+            if isinstance(test.ops[0], neg):
+                test = ast.Compare(left=test.left, ops=[pos()], comparators=test.comparators)
+                outcome = not outcome
+                break
+    return test, outcome
